@@ -516,6 +516,9 @@ def run(R):
             if ok_enc and enc != ["ok", True]:
                 R.violation("a generated scale is refused by chunk_encoding.get_encoder", case, enc)
 
+    # -------- second invocations and multi-scale descriptions (state surviving between calls)
+    _rerun_and_multiscale_stream(R, rng, quick)
+
     # -------- libm probes (tests of modelling assumptions, not proofs)
     bad = []
     for s in list(range(1, 3000)) + [2 ** k + dd for k in range(2, 31) for dd in (-1, 0, 1)] + [10 ** 6, 10 ** 9]:
@@ -572,9 +575,124 @@ def run(R):
             print(v)
 
 
+def _rerun_and_multiscale_stream(R, rng, quick, only=None):
+    """(1) generate-scales-info invoked a SECOND time into a destination that already holds an info:
+    either it fails, or the info found there is the pyramid of the description given to THAT run.
+    (2) a description that already lists several scales (the info of an earlier run with another target,
+    or hand-written extra scales): only the first scale counts, the written info / the filled dict is the
+    pyramid of that scale for the requested target.  Kinds are stratified (k mod 4), not drawn."""
+    from neuroglancer_scripts import dyadic_pyramid as dp
+    from neuroglancer_scripts.scripts import generate_scales_info as gsi
+
+    def expected(size, res, target, ms):
+        mod = model_outcome(R.model.call(*model_req(size, res, target, ms)))
+        return pc.canon_model_scales(mod[1]) if mod[0] == "ok" else None
+
+    def desc(size, res, scales_extra=()):
+        return {"type": "image", "data_type": "uint8", "num_channels": 1,
+                "scales": [{"size": list(size), "resolution": list(res), "voxel_offset": [0, 0, 0],
+                            "encoding": "raw"}] + list(scales_extra)}
+
+    def run_main(k, tag, description, dest, target, ms):
+        src = os.path.join(R.tmp, f"rr{k}-{tag}.json")
+        with open(src, "w") as f:
+            json.dump(description, f)
+        before = open(src).read()
+        argv = ["generate-scales-info", src, dest, "--target-chunk-size", str(target)]
+        if ms is not None:
+            argv += ["--max-scales", str(ms)]
+        rc = outcome_of(lambda: gsi.main(argv))
+        if open(src).read() != before:
+            R.violation("generate-scales-info modified its input file", {"argv": argv[1:]}, {})
+        return rc
+
+    def written(dest):
+        try:
+            with open(os.path.join(dest, "info")) as f:
+                return pc.canon_scales(json.load(f))
+        except (OSError, ValueError, KeyError, TypeError) as exc:
+            return repr(exc)
+
+    kinds = ["second-invocation", "multi-scale-earlier-run", "multi-scale-junk", "fill-multi-scale"]
+    for k in range(1 if only else (28 if quick else 400)):
+        kind = kinds[k % 4]
+        size, res, target, ms = gen_case(rng)
+        if only:                                   # replay of one recorded case
+            kind, size, res, target, ms = only
+            k = 10 ** 6 + rng.randrange(10 ** 6)
+        if ms == 0:
+            ms = None
+        exp = expected(size, res, target, ms)
+        if exp is None:
+            continue
+        dest = os.path.join(R.tmp, f"rr{k}")
+        case = {"kind": kind, "size": size, "resolution": [r if isinstance(r, int) else float(r).hex() for r in res],
+                "target": target, "max_scales": ms}
+        R.case(case, nontrivial=True)
+        junk = {"size": [7, 7, 7], "resolution": [3, 3, 3], "voxel_offset": [0, 0, 0], "encoding": "raw",
+                "key": "junk", "chunk_sizes": [[5, 5, 5]]}
+        if kind == "second-invocation":
+            rc1 = run_main(k, "a", desc(size, res), dest, target, ms)
+            if rc1 != ["ok", 0] or written(dest) != exp:
+                R.violation("first generate-scales-info run into a fresh destination failed or wrote another pyramid",
+                            case, {"rc": rc1})
+                continue
+            size2 = [s + 1 + rng.randrange(3) for s in size]
+            target2 = target * 2 if target < 256 else target // 2
+            exp2 = expected(size2, res, target2, ms)
+            rc2 = run_main(k, "b", desc(size2, res), dest, target2, ms)
+            now = written(dest)
+            R.count("second-invocation:" + ("rc0" if rc2 == ["ok", 0] else rc2[-1]))
+            if rc2 == ["ok", 0]:
+                if now != exp2:
+                    R.violation("second generate-scales-info run reported success but the info at the destination is "
+                                "not the pyramid of the description given to that run", {**case, "second_size": size2,
+                                                                                          "second_target": target2},
+                                {"info_is_the_stale_first_one": now == exp})
+            elif now != exp:
+                R.violation("a failed second generate-scales-info run damaged the existing info", case, {"rc": rc2})
+            continue
+        if kind == "multi-scale-earlier-run":
+            earlier = pc.base_info(size, res)
+            dp.fill_scales_for_dyadic_pyramid(earlier, target_chunk_size=(target * 4 if target <= 64 else target // 4),
+                                              max_scales=3)
+            extra = earlier["scales"][1:] or [junk]
+        else:
+            extra = [junk, dict(junk, key="junk2", size=[1, 2, 3])]
+        if kind == "fill-multi-scale":
+            d = desc(size, res, extra)
+            ret = outcome_of(lambda: dp.fill_scales_for_dyadic_pyramid(d, target_chunk_size=target, max_scales=ms))
+            R.count("fill-multi-scale:" + ret[0])
+            if ret[0] != "ok" or pc.canon_scales(ret[1]) != exp:
+                R.violation("fill_scales_for_dyadic_pyramid on a multi-scale description does not return the pyramid "
+                            "of the first scale", case, {"outcome": ret[0]})
+            elif ret[1] is not d or pc.canon_scales(d) != exp:
+                R.violation("fill_scales_for_dyadic_pyramid did not fill the caller's info dict (documented in-place "
+                            "contract; generate-scales-info writes that dict)", case,
+                            {"caller_scales": len(d["scales"]), "expected_scales": len(exp)})
+            continue
+        rc = run_main(k, "m", desc(size, res, extra), dest, target, ms)
+        R.count(f"{kind}:" + ("rc0" if rc == ["ok", 0] else rc[-1]))
+        if rc != ["ok", 0]:
+            R.violation("generate-scales-info failed on a description that lists several scales", case, {"rc": rc})
+        elif written(dest) != exp:
+            got = written(dest)
+            R.violation("generate-scales-info on a multi-scale description did not write the pyramid of the first "
+                        "scale for the requested target", case,
+                        {"written_scales": len(got) if isinstance(got, list) else got, "expected_scales": len(exp)})
+
+
 def replay(R, payload):
     """Re-run the recorded case; True iff a failure of the same kind is still observed."""
     case = payload.get("case", {})
+    if case.get("kind") in ("second-invocation", "multi-scale-earlier-run", "multi-scale-junk", "fill-multi-scale"):
+        import logging
+        logging.disable(logging.CRITICAL)
+        res = [r if isinstance(r, int) else float.fromhex(r) for r in case["resolution"]]
+        _rerun_and_multiscale_stream(R, R.rng, True, only=(case["kind"], case["size"], res, case["target"],
+                                                            case.get("max_scales")))
+        logging.disable(logging.NOTSET)
+        return bool(R.violations or R.disagreements)
     if "size" not in case or "length_nm" in case:
         return True
     res = [r if isinstance(r, int) else float.fromhex(r) for r in case["resolution"]]
